@@ -29,11 +29,15 @@ pub fn properties() -> Vec<&'static str> {
 }
 
 pub fn gen_plan(property: &str, rng: &mut Rng, thorough: bool) -> Option<Plan> {
+    if property == "C02" && rng.chance(1, 4) {
+        // the client library's update()/swap() retry loop is part of C02's mechanism
+        return Some(Plan::ClientLib(scen_client::gen_plan(rng, "C02", thorough)));
+    }
     if WIRE_PROPS.contains(&property) {
         return Some(Plan::Wire(scen_wire::gen_plan(rng, property, thorough)));
     }
     if property == "C20" {
-        return Some(Plan::ClientLib(scen_client::gen_plan(rng, thorough)));
+        return Some(Plan::ClientLib(scen_client::gen_plan(rng, "C20", thorough)));
     }
     if DISK_PROPS.contains(&property) {
         return Some(Plan::Disk(scen_disk::gen_plan(rng, property, thorough)));
